@@ -363,6 +363,7 @@ class Unit:
                         aliases.append((pa, pb))
         for (nm, (lo, hi)) in spec.in_ranges.items():
             L.append("  __CPROVER_assume(%s >= %s && %s <= %s);" % (nm, lo, nm, hi))
+        L.append("  verif_lib_anchor();")
         if spec.pre_call:
             L.append(spec.pre_call)
         rt = f.ret
@@ -498,6 +499,7 @@ class Unit:
                     continue
                 L.append("  %s %s = nondet_%s(); %s = %s;" % (c, iname, cxx2c.sanitize(c), path, iname))
                 inputs.append(dict(name=iname, ctype=c, path=path))
+        L.append("  verif_lib_anchor();")
         for r in lem.requires:
             L.append("  __CPROVER_assume(%s);" % r)
         body = lem.body
